@@ -311,8 +311,15 @@ def gen_exprloc_case(rng):
             toks = toks + ["+", "nosuch"]
     elif mode == "range_later" and "lt1" not in toks:
         toks = toks + ["+", "lt1"]
-    d = rng.choice(["@db", "@dw"])
-    if mode != "undefined":
+    d = rng.choice(["@db", "@dw", "@dw", "@assert"])
+    if mode != "undefined" and d == "@assert":
+        # an assertion that is false (0) whatever the random part evaluates to, at once or at link time: located like an operand
+        if rng.random() < 0.5:
+            toks = [rng.choice(UN) for _ in range(rng.choice([0, 1, 1, 2]))] + ["("] + toks + [")", "*", "0"]
+        else:
+            a0 = rng.choice(atoms + ["@sizeof"])
+            toks = ([a0, rng.choice(["Sname", "Sname.fa"])] if a0 == "@sizeof" else [a0]) + ["*", "0", "+", "("] + toks + [")", "*", "0"]
+    elif mode != "undefined":
         # the value fits neither a byte nor a word, whatever the random part evaluates to: it is multiplied by 0 inside
         # parentheses; the expression starts with unary operators, a parenthesis, or an atom of every kind
         if rng.random() < 0.5:
@@ -321,7 +328,7 @@ def gen_exprloc_case(rng):
             a0 = rng.choice(atoms + ["@sizeof"])
             toks = ([a0, rng.choice(["Sname", "Sname.fa"])] if a0 == "@sizeof" else [a0]) + ["*", "0", "+", "100000", "+", "("] + toks + [")", "*", "0"]
     ind = rng.choice(["", " ", "\t", "lq%d: " % rng.randrange(10**6)])
-    pre = rng.choice(["", "", "1, ", '"é", ' if d == "@db" else "2, ", "1, \\\n  ", "kc1 + 1, ( 2 ), "])
+    pre = "" if d == "@assert" else rng.choice(["", "", "1, ", '"é", ' if d == "@db" else "2, ", "1, \\\n  ", "kc1 + 1, ( 2 ), "])
     b.text += ind
     stmt_line = b.mark()[0]
     b.text += d + " " + pre
@@ -339,6 +346,8 @@ def gen_exprloc_case(rng):
         if t not in first and (i == 0 or toks[i - 1] != "@sizeof"):
             first[t] = pos
         b.text += t
+    if d == "@assert" and rng.random() < 0.4:
+        b.text += ' , "said so"'
     b.text += rng.choice(["", " ", " ; c"]) + "\n"
     b.fillers(0, 3)
     b.text += "@defn lt1, 5\n@defn okfwd, $1234\n"
@@ -369,7 +378,7 @@ def exprloc_leg(ck, harness, model, n):
                         break
             else:
                 mpos = (int(mm.group(1)), int(mm.group(2)))
-        ck.count("exprloc-K:%s:%s" % (c["mode"], "located" if got else a.kind))
+        ck.count("exprloc-K:%s%s:%s" % (c["mode"], ":assert" if "@assert" in c["text"].split("\n")[c["line"] - 1] else "", "located" if got else a.kind))
         if "\\\n" in c["text"].split("\n@defn lt1")[0][-200:] or "@sizeof" in c["expr"]:
             ck.nontriv(ic)
         bad = None
@@ -424,7 +433,7 @@ def run(ck):
                "Lexer.lex_all vs the implementation's lexer on every generated file and on token-soup texts: token kinds, "
                "payloads and line:column of every token and lexical error; ExprLoc.lptree (on the lexer model's tokens) vs the position "
                "the implementation reports for random operand expressions (unary leads, parentheses, ?:, @sizeof, continuations inside the "
-               "expression) that are out of range at once, only at link time, or mention an undefined symbol (first mention), each also "
+               "expression) that are out of range (or, under @assert, false) at once, only at link time, or mention an undefined symbol (first mention), each also "
                "against the position the generator counted; Trace.trace vs the printed include chain.  non-trivial = fault preceded by at least one "
                "multi-line construct or wide character.")
     harness, model = asmk.setup(ck, PROP)
